@@ -2734,7 +2734,9 @@ class TLSConnection(TLSRecordLayer):
         # Create the session object
         self.session = Session()
         if cipherSuite in CipherSuite.certAllSuites or \
-                cipherSuite in CipherSuite.ecdheEcdsaSuites:
+                cipherSuite in CipherSuite.ecdheEcdsaSuites or \
+                cipherSuite in CipherSuite.dheDsaSuites:
+            # every suite in which the server sent a Certificate message
             serverCertChain = cert_chain
         else:
             serverCertChain = None
